@@ -69,6 +69,32 @@ def stats(trace):
     return kinds, nontrivial
 
 
+def apalache_induction():
+    import shutil
+    import subprocess
+    import time
+    exe = shutil.which("apalache-mc")
+    if not exe:
+        raise vlib.MachineryError("apalache-mc is not on PATH")
+    d = vlib.sub("apalache")
+    for f in vlib.spec_files("PrivVal.tla", "PrivValInd.tla"):
+        shutil.copy(f, d)
+    out = {}
+    for name, args in (("base", ["--init=Init", "--length=0"]), ("step", ["--init=IndInit", "--length=1"])):
+        t0 = time.time()
+        try:
+            p = subprocess.run([exe, "check", "--inv=IndInv", "--cinit=CInit", "--out-dir=" + os.path.join(d, "out-" + name)] + args + ["PrivValInd.tla"],
+                               cwd=d, stdout=subprocess.PIPE, stderr=subprocess.STDOUT, text=True, timeout=2400)
+        except subprocess.TimeoutExpired:
+            raise vlib.MachineryError("apalache (%s case of the induction) did not finish in 40 minutes" % name)
+        if "EXITCODE: OK" not in p.stdout or "The outcome is: NoError" not in p.stdout:
+            raise vlib.MachineryError("the inductive invariant of PrivValInd.tla is not proved (%s case): the SPECIFICATION is at fault, not the code:\n%s"
+                                      % (name, p.stdout[-2500:]))
+        out[name + "_s"] = round(time.time() - t0, 1)
+    vlib.log("PrivValInd.tla: IndInv is inductive (Apalache: base %.0fs, step %.0fs)" % (out["base_s"], out["step_s"]))
+    return out
+
+
 def run(tier, replay=None):
     v = vlib.Verdict(PROP, tier)
     quick = tier == "quick"
@@ -92,6 +118,12 @@ def run(tier, replay=None):
     if vlib.tlc_failed(mc) or mc.violated:
         raise vlib.MachineryError("PrivVal.tla does not satisfy its own C20 formulas (spec bug):\n" + vlib.counterexample(mc))
     vlib.log("MC_PrivVal: %d generated / %d distinct states, %.0fs" % (mc.generated, mc.distinct, mc.wall))
+
+    # unbounded in the number of steps (thorough tier): Apalache proves that IndInv of PrivValInd.tla - which contains NoDoubleSign and
+    # PersistBeforeRelease - holds initially and is preserved by every step, for 3 heights x 3 rounds x 3 steps x 3 block ids x 2 timestamps
+    inductive = None
+    if not quick:
+        inductive = apalache_induction()
 
     nsim = 120 if quick else 1600
     sim = vlib.run_tlc(vlib.spec_files("PrivVal.tla", "MC_PrivValSim.tla", "MC_PrivValSim.cfg"), "MC_PrivValSim.tla",
@@ -128,6 +160,9 @@ def run(tier, replay=None):
         "rule": "a trace is one request sequence on a fresh key/state file pair; non-trivial = shows >= 4 distinct outcome kinds "
                 "(ok, crash, conflict, regression, nosignbytes, reload)",
         "exhaustive": True,
+        "inductive_invariant": ("IndInv of PrivValInd.tla (contains NoDoubleSign, PersistBeforeRelease) proved inductive by Apalache for 3 heights x "
+                                "3 rounds x 3 steps x 3 block ids x 2 timestamps: holds after ANY number of requests, releases, crashes and reloads; "
+                                "seconds: %s" % inductive) if inductive else "thorough tier only",
         "mc_config": "heights 1-2, rounds 0-1, 3 steps, 3 block ids, 2 timestamps, <= %d steps incl. crash/reload anywhere" % steps,
         "outcome_kinds_seen": sorted(kinds),
         "samples": [{"first_steps_of_a_random_trace": sample}],
